@@ -150,6 +150,9 @@ def run(repo, tier):
     # ------------------------------------------------------------ R-NOGRAD / EVAL in predict
     out += nograd_eval(repo)
     out += eval_rule(repo, "deep_lift_shap.deep_lift_shap")
+    for q in ("product.apply_pairwise", "product.apply_product"):
+        if repo.has_func(q):
+            out += eval_rule(repo, q)
     return out
 
 
@@ -426,6 +429,9 @@ def eval_rule(repo, qual):
     out = []
     pm = parent_map(f.node)
     fwd = [n for n in walk_no_nested(f.node) if isinstance(n, ast.Call) and isinstance(n.func, ast.Name) and n.func.id == "model"]
+    # handing the model to a callable that evaluates it (func(model, X_, ..), predict(model, ..)) counts as a forward use
+    fwd += [n for n in walk_no_nested(f.node) if isinstance(n, ast.Call) and not (isinstance(n.func, ast.Attribute) and n.func.attr in ("apply", "to", "eval"))
+            and any(isinstance(a, ast.Name) and a.id == "model" for a in n.args) and dotted(n.func) not in ("isinstance", "print", "type", "id")]
     role = "model.eval() is applied to the model object before any forward call"
     if not fwd:
         return [unrecognised("R-EVAL", f, role, "no model(...) call in %s" % qual)]
